@@ -90,6 +90,29 @@ def optprog_cases(tier, rng):
     return cases
 
 
+def guard_cases(tier, rng):
+    """second audit, item 1: programs that hit the MAX_TASK_STACK_SIZE guard (limit lowered in BOTH runs of the pair), each
+    under two option sets: one random subset WITHOUT KEEP_DEPENDENCIES (every other option must stay inert after a guard reset
+    too) and the same subset WITH it (after a reset KEEP_DEPENDENCIES changes the pause/resume events a caller that caught the
+    RuntimeError gets - machine-checked for the model as C20_guard_counterexample; reported with the signature
+    .../KEEP_DEPENDENCIES/after-MAX_TASK_STACK_SIZE-reset)"""
+    res = []
+    for i in range(40 if tier == "quick" else 1000):
+        if i % 2:
+            c = cc.guard_nested_family(rng)
+        else:
+            c = coregen.gen_case(rng, rng.choice(["full", "full", "sync", "yield_ctx"]), ntops=rng.choice([1, 1, 2]))
+            c["cfg"].pop("keepDeps", None)
+            c["cfg"]["maxStack"] = rng.choice([1, 2, 3, 4, 6, 9])
+        opts = gen_opts(rng)
+        opts.pop("KEEP_DEPENDENCIES", None)
+        if len(opts) == 1:      # only the clock is left
+            opts["COLLECT_PERF_STATS"] = True
+        res.append(dict(c, opts=opts))
+        res.append(dict(c, opts=dict(opts, KEEP_DEPENDENCIES=True)))
+    return res
+
+
 def plan(tier, seed):
     rng = random.Random(seed * 1000003 + 20)
     n = 1200 if tier == "quick" else 20000
@@ -108,7 +131,8 @@ def plan(tier, seed):
             c["opts"]["COLLECT_PERF_STATS"] = True
         c["hook"] = "peek"
         cases.append(c)
-    return cc.corpus(PID) + optprog_cases(tier, random.Random(seed * 1000003 + 21)) + cases[len(cc.corpus(PID)):]
+    return cc.corpus(PID) + optprog_cases(tier, random.Random(seed * 1000003 + 21)) + \
+        guard_cases(tier, random.Random(seed * 1000003 + 22)) + cases[len(cc.corpus(PID)):]
 
 
 def run_case(case):
@@ -120,6 +144,11 @@ def run_case(case):
     import json
     base = dict(case)
     base["opts"] = {}
+    ms = case.get("cfg", {}).get("maxStack")
+    if ms is not None:
+        # the guard family: the limit is part of the configuration of BOTH runs, not one of the options under test
+        base["opts"] = {"MAX_TASK_STACK_SIZE": ms}
+        case = dict(case, opts=dict(case["opts"], MAX_TASK_STACK_SIZE=ms))
     tr0 = run_program(base)
     try:
         tr1 = run_program(case)
@@ -169,8 +198,15 @@ def neighbours(case, rng):
 
 
 def signature(case, v):
-    opts = sorted(k for k in case["opts"] if not k.startswith("_"))
+    opts = sorted(k for k in case["opts"] if not k.startswith("_") and k != "MAX_TASK_STACK_SIZE")
     sig = v["spec"]
+    if not case.get("special") and cc.guard_fired(case, v):
+        # the runs differ from the guard's reset on: with KEEP_DEPENDENCIES among the options that is the recorded behaviour
+        # (whatever else is switched on), without it a signature of its own
+        if "KEEP_DEPENDENCIES" in opts:
+            opts = ["KEEP_DEPENDENCIES"]
+        return sig + ("/hook-" + case["hook"] if case.get("hook") else "") + "".join("/" + o for o in opts[:1] if len(opts) == 1) + \
+            cc.guard_suffix(case, v)
     if case.get("hook"):
         sig += "/hook-" + case["hook"]
     if case.get("special") == "optprog":
